@@ -39,7 +39,7 @@ CHECK = _C15(
     nontrivial=nontrivial,
     deciding=["oracle.C15.roundtrip"],
     profile=("stage", "table"),
-    classes=[(c, max(50, q // 5), max(500, t // 5), p) for c, q, t, p in GEN_CLASSES
+    classes=[(c, max(50, q // 5), max(500, t // 12), p) for c, q, t, p in GEN_CLASSES
              if c != "names_collide"],  # names restricted to those the front ends / generator produce
     use_byteflow=True,
     extra_assumptions=["graphs with AST statement payloads are outside the statement's "
